@@ -245,6 +245,16 @@ def _meta(m):
     return None if m is None else json.loads(json.dumps(m))
 
 
+def _mk_com(op, args):
+    """the Command `op(*args)` as user code writes it (`DataflowOp.__call__`); operation classes with a `__call__` of
+    their own (fixed arity) get the Command built directly, so that a program may give them any number of wires"""
+    from hugr import ops
+
+    if getattr(type(op), "__call__", None) is ops.DataflowOp.__call__:
+        return op(*args)
+    return ops.Command(op, list(args))
+
+
 def _shared_coms(env, c, at, make):
     """the Command objects of an `add` / `extend`; a trailing `{"obj": key}` makes every command with that key use
     the SAME Command objects (a layer of gates prepared once and applied several times)"""
@@ -298,14 +308,14 @@ def exec_cmd(env: Env, c, docs: list):
         return bind_n(c[2], b.add_op(op, *ws, metadata=_meta(c[5])))
     if k == "add":
         b = env.builder(c[1], DfBase)
-        com = _shared_coms(env, c, 6, lambda: [ops.Command(build_prog_op(c[3]), [com_wire(env, w) for w in c[4]])])[0]
+        com = _shared_coms(env, c, 6, lambda: [_mk_com(build_prog_op(c[3]), [com_wire(env, w) for w in c[4]])])[0]
         return bind_n(c[2], b.add(com, metadata=_meta(c[5])))
     if k == "extend":
         b = env.builder(c[1], DfBase)
         if len(c[2]) != len(c[3]):
             raise ProgError("extend: names/commands mismatch")
         coms = _shared_coms(
-            env, c, 4, lambda: [ops.Command(build_prog_op(o), [com_wire(env, w) for w in ws]) for o, ws in c[3]]
+            env, c, 4, lambda: [_mk_com(build_prog_op(o), [com_wire(env, w) for w in ws]) for o, ws in c[3]]
         )
         ns = b.extend(*coms)
         for name, n in zip(c[2], ns):
